@@ -298,6 +298,9 @@ type c08Data struct {
 	rs   *regScript
 	dops []*dataOp
 	ev   *EventLog
+	// a peer whose connection is removed while the others go on (its own requests are over by then)
+	victim *Peer
+	drop   *RegOp
 }
 
 func init() {
@@ -310,12 +313,33 @@ func init() {
 			d.ev = w.CollectEvents()
 			w.EnableFaults("net.dup")
 			hot := pr.Servers[w.T.Choose(len(pr.Servers), "hot")]
+			if len(pr.Peers) >= 3 && w.T.Bool(1, 2, "teardown-victim") {
+				d.victim = pr.Peers[len(pr.Peers)-1]
+				w.EnableFaults("conn.drop")
+				w.Go("teardown", func() {
+					simrt.WaitUntil("victim-requests-over", func() bool {
+						return w.scriptsDone("script:"+d.victim.Name) && len(d.victim.Conn.Queue) == 0 && !d.victim.Conn.Handling
+					})
+					for k := w.T.Choose(16, "teardown-delay"); k > 0; k-- {
+						w.Yield("teardown-delay")
+					}
+					call := w.Logf("fault conn.drop %s", d.victim.Name)
+					simrt.Self().OpSeq = call
+					if pr.L.Disconnect(d.victim.Name) {
+						w.Fault("conn.drop")
+						d.drop = &RegOp{Kind: "drop", Peer: d.victim.Name, OK: true, Call: call, Return: w.Stamp(), Desc: "conn.drop"}
+					}
+				})
+			}
 			for _, p := range pr.Peers {
 				p := p
 				d.rs.watch(p)
 				w.Go("script:"+p.Name, func() {
 					p.AwaitDiscovery()
 					n := 2 + w.T.Choose(6, "nops")
+					if p == d.victim {
+						n = 1 + w.T.Choose(3, "victim-nops")
+					}
 					for i := 0; i < n; i++ {
 						var ri *regIssued
 						if w.T.Bool(1, 6, "listing") {
@@ -348,6 +372,9 @@ func init() {
 			d := w.scData.(*c08Data)
 			ops := d.rs.collect("C08")
 			ops = append(ops, d.rs.collectListings("C08")...)
+			if d.drop != nil {
+				ops = append(ops, *d.drop)
+			}
 			end := w.Stamp()
 			allIDs := map[uint64]int{}
 			for _, p := range d.pr.Peers {
@@ -386,8 +413,20 @@ func init() {
 			if adds != granted {
 				w.Violate("C08/subscription-add-events", "%d subscription-added events for %d granted subscriptions", adds, granted)
 			}
+			if d.drop != nil {
+				// the removal of the victim's connection removes what the victim still had (its
+				// requests were over: granted minus deleted)
+				for _, o := range ops {
+					if o.Peer == d.victim.Name && o.Kind == "sub" && o.OK {
+						removed++
+					}
+					if o.Peer == d.victim.Name && o.Kind == "unsub" && o.OK {
+						removed--
+					}
+				}
+			}
 			if rems != removed {
-				w.Violate("C08/subscription-remove-events", "%d subscription-removed events for %d successful deletes", rems, removed)
+				w.Violate("C08/subscription-remove-events", "%d subscription-removed events for %d successful deletes (and entries of a removed connection)", rems, removed)
 			}
 			w.State(fmt.Sprint(ops))
 			_ = util.Ptr[int]
